@@ -76,7 +76,7 @@ class Net:
             for attr, val in spec.get("attrs", {}).items():
                 setattr(n, attr, val)
             for attr, val in spec.get("attr_seq", ()):  # a history of attribute assignments, in order
-                setattr(n, attr, val)
+                setattr(n, attr, bytearray(val) if isinstance(val, bytearray) else val)
             if spec.get("rebegin") or "pre_addr" in spec:
                 n.node_address = spec["addr"]  # (re-)assignment after construction, as a mesh renewal does
             self.nodes[key] = n
